@@ -64,7 +64,8 @@ def incRequest (args : List String) : Option (Option Bytes × List (Req × Rec))
 
 def handleIncWith (why : Bool) (args : List String) : Option String := do
   let (sentinel, steps) ← incRequest args
-  match validate sentinel steps with
+  -- `INCWHY`: the strict check the theorems are about; `INC`: the lenient verdict (see the model)
+  match (if why then validate sentinel steps else validateLenient sentinel steps) with
   | .ok r =>
     some s!"ok {",".intercalate (steps.map (fun x => fmtRec x.2))} {if r.done then "complete" else "partial"}"
   | .error e => some (if why then "err " ++ e else "err invalid")
